@@ -29,7 +29,7 @@ pub fn profiles04() -> Vec<Profile> {
 pub fn profiles04_prio() -> Vec<Profile> {
     vec![
         Profile { choice: true, choice_weight: 6, pred_t: true, nodeops: true, skips: true, parts: true, ..Profile::base("choice-predt") },
-        Profile { choice: true, choice_weight: 8, pratt: true, max_rules: 4, ..Profile::base("choice-pratt") },
+        Profile { choice: true, choice_weight: 8, pratt: true, max_rules: 4, shuffle_decls: true, ..Profile::base("choice-pratt") },
     ]
 }
 
